@@ -73,6 +73,15 @@ def invoke(obj, name, kw, model):
     args = {k: (getattr(type(obj), v[8:]) if isinstance(v, str)
                 and v.startswith("@static:") else resolve_arg(v, model))
             for k, v in kw.items() if not k.startswith("@")}
+    # node lists as list / range / integer array / tuple
+    seq = kw.get("@seq", 0)
+    if seq:
+        for k, v in list(args.items()):
+            if isinstance(v, list) and v and all(
+                    isinstance(x, int) for x in v) and isinstance(
+                        kw[k], str) and kw[k].startswith("@half"):
+                args[k] = (range(v[0], v[-1] + 1), np.array(v),
+                           tuple(v))[seq - 1]
     f = getattr(obj, name)
     pargs = []
     if pos in (1, 2):
@@ -113,6 +122,9 @@ def invoke(obj, name, kw, model):
 
 def with_pos(kw, rnd):
     """The query pattern kw with a seeded call-site pattern."""
+    if any(isinstance(v, str) and v.startswith("@half")
+           for v in kw.values()) and rnd.random() < 0.4:
+        kw = dict(kw, **{"@seq": rnd.randrange(1, 4)})
     c = rnd.random()
     if c < 0.45:
         return kw
